@@ -246,9 +246,9 @@ MC = {
              ("MaxCap = 6  InitCap = 0  Sizes = {1,2}  Aligns = {1,2}  GrowStep = 1  GrowAmounts = {}  Tokens = {7}", 0, 1)],
         walks=300, steps=60, sample=1500),
     "thorough": dict(
-        impl=[("MaxCap = 9  InitCap = 4  Sizes = {1,2,3}  Aligns = {1,2,4}  GrowStep = 0  GrowAmounts = {2}  Tokens = {7}", "gs0"),
+        impl=[("MaxCap = 8  InitCap = 4  Sizes = {1,2,3}  Aligns = {1,2,4}  GrowStep = 0  GrowAmounts = {2}  Tokens = {7}", "gs0"),
               ("MaxCap = 7  InitCap = 0  Sizes = {1,2,3}  Aligns = {1,2,4}  GrowStep = 1  GrowAmounts = {}  Tokens = {7}", "gs1"),
-              ("MaxCap = 9  InitCap = 2  Sizes = {1,2,3}  Aligns = {1,2,4,8}  GrowStep = 3  GrowAmounts = {1}  Tokens = {7}", "gs3")],
+              ("MaxCap = 8  InitCap = 2  Sizes = {1,2,3}  Aligns = {1,2,4,8}  GrowStep = 3  GrowAmounts = {1}  Tokens = {7}", "gs3")],
         contract="MaxCap = 10  InitCap = 4  Sizes = {1,2,3}  Aligns = {1,2,4}  GrowAmounts = {1,2}  Tokens = {7}",
         gen=[("MaxCap = 8  InitCap = 4  Sizes = {1,2,3}  Aligns = {1,2,4}  GrowStep = 0  GrowAmounts = {2}  Tokens = {7}", 4, 0),
              ("MaxCap = 8  InitCap = 0  Sizes = {1,2,3}  Aligns = {1,2,4}  GrowStep = 1  GrowAmounts = {}  Tokens = {7}", 0, 1),
